@@ -295,6 +295,23 @@ Proof.
   - unfold CtxOI. rewrite E3. exact Hoi.
 Qed.
 
+(** ... also when some contexts have gone: every condition on contexts is universal *)
+Lemma core_ctx_subset w w' :
+  Core w -> w_outs w' = w_outs w -> w_log w' = w_log w ->
+  (forall c, In c (w_ctxs w') -> In c (w_ctxs w)) ->
+  w_logid w' = w_logid w -> child_le w w' -> Core w'.
+Proof.
+  intros [Hs Hb Hh Hi Ho Hoo Hoi] E1 E2 E3 E4 Hle. constructor.
+  - unfold LogSorted. rewrite E2. exact Hs.
+  - unfold LogBelow. rewrite E2, E4. exact Hb.
+  - unfold Held. rewrite E1, E2. exact Hh.
+  - intros c k m v Hc Hk. apply E3 in Hc. destruct (Hi c k m v Hc Hk) as [A B].
+    split; [eapply key_below_mono; eauto|]. rewrite E1. exact B.
+  - intros c k m v o Hc Hk Hg. rewrite E1 in Hg. apply E3 in Hc. eapply Ho; eauto.
+  - intros c c' k m v m' v' Hc Hc'. apply E3 in Hc. apply E3 in Hc'. eapply Hoo; eauto.
+  - intros c c' k m v v' Hc Hc'. apply E3 in Hc. apply E3 in Hc'. eapply Hoi; eauto.
+Qed.
+
 Lemma receive_core w s a t d c :
   Fresh w -> Core w -> Core (fst (receive w s a t d c)).
 Proof.
@@ -1007,7 +1024,7 @@ Proof. destruct t; cbn; auto. Qed.
 Lemma finalize_core w s t tip so co :
   Fresh w -> WF w -> Core w -> Core (fst (finalize w s t tip so co)).
 Proof.
-  intros Hf Hwf Hc. unfold finalize. destruct (get_ctx w s) as [c|]; cbn [fst]; [|exact Hc].
+  intros Hf Hwf Hc. unfold finalize. destruct (get_ctx w s) as [c|] eqn:Ectx; cbn [fst]; [|exact Hc].
   destruct (check_ttl w t) as [[]|e|q]; cbn [fst]; try exact Hc.
   destruct (negb so); cbn [fst]; [exact Hc|].
   set (late_result := match c_late c with None => (w, Ok c) | Some la => _ end).
@@ -1025,7 +1042,16 @@ Proof.
     assert (Hf2 : Fresh (save_ctx w1 c')) by (apply save_ctx_fresh; [exact Hf1|exact Hl]).
     assert (Hwf2 : WF (save_ctx w1 c')) by (unfold WF; cbn [w_outs save_ctx with_ctxs]; rewrite E1; exact Hwf).
     pose proof (lock_core (save_ctx w1 c') s t tip Hf2 Hwf2 Hc2) as Hc3.
-    destruct (lock (save_ctx w1 c') s t tip) as [w3 [u|e|q]]; cbn [fst] in *; exact Hc3. }
+    destruct (lock (save_ctx w1 c') s t tip) as [w3 [u|e|q]] eqn:Elock; cbn [fst] in *; try exact Hc3.
+    (* refused: the late-locked context is stored again — the contexts are a subset of w's *)
+    assert (w3 = save_ctx w1 c') by (eapply lock_fail_same; [exact Elock|discriminate]). subst w3.
+    apply (core_ctx_subset w); [exact Hc|cbn; exact E1|cbn; exact E2| |cbn; exact E4|intros a; cbn; apply Hle].
+    assert (Hsl : c_slate c = s).
+    { unfold get_ctx in Ectx. apply find_some in Ectx as [_ Hs]. lia. }
+    intros x Hx. apply in_save_ctx in Hx as [->|[Hx Hne]]; [apply (get_ctx_in _ _ _ Ectx)|].
+    apply in_save_ctx in Hx as [->|[Hx _]].
+    - exfalso. apply Hne. unfold c'. cbn [c_slate]. now rewrite Hsl.
+    - rewrite E3 in Hx. exact Hx. }
   destruct late_result as [w' [c'|e|q]]; cbn [fst] in *; try exact Hlate.
   destruct (negb co); cbn [fst]; [exact Hlate|].
   destruct (negb (existsb _ _)); cbn [fst]; [exact Hlate|].
